@@ -1,0 +1,16 @@
+//go:build verif
+
+package smobserver
+
+import (
+	"context"
+
+	"github.com/shutter-network/rolling-shutter/rolling-shutter/keyper/database"
+)
+
+// VerifShiftPhases exposes shiftPhases (what the shuttermint driver calls for every new block
+// height: move every active DKG to the phase of that height, finalizeDKG included) to the
+// verification harness in /verif. Add-only, compiled only with -tags verif.
+func (st *ShuttermintState) VerifShiftPhases(ctx context.Context, queries *database.Queries, height int64) error {
+	return st.shiftPhases(ctx, queries, height)
+}
